@@ -1,6 +1,6 @@
 use core::sync::atomic::{AtomicPtr, Ordering};
 
-use std::sync::RwLock;
+use std::sync::{PoisonError, RwLock};
 
 use super::sealed::{CaS, InnerStrategy, Protected};
 use crate::as_raw::AsRaw;
@@ -21,7 +21,10 @@ impl<T: RefCnt> Protected<T> for T {
 impl<T: RefCnt> InnerStrategy<T> for RwLock<()> {
     type Protected = T;
     unsafe fn load(&self, storage: &AtomicPtr<T::Base>) -> T {
-        let _guard = self.read().expect("We don't panic in here");
+        // The lock guards no data of its own, so there's nothing a panic under it (a destructor of
+        // the pointee run inside compare_and_swap) could have left inconsistent. Don't let such a
+        // panic poison every later operation.
+        let _guard = self.read().unwrap_or_else(PoisonError::into_inner);
         let ptr = storage.load(Ordering::Acquire);
         let ptr = T::from_ptr(ptr as *const T::Base);
         T::inc(&ptr);
@@ -31,7 +34,7 @@ impl<T: RefCnt> InnerStrategy<T> for RwLock<()> {
 
     unsafe fn wait_for_readers(&self, _: *const T::Base, _: &AtomicPtr<T::Base>) {
         // By acquiring the write lock, we make sure there are no read locks present across it.
-        drop(self.write().expect("We don't panic in here"));
+        drop(self.write().unwrap_or_else(PoisonError::into_inner));
     }
 }
 
